@@ -366,7 +366,7 @@ that no inline unit is left. -/
 def BuilderInv (v : Variant) (b : Builder) : Prop :=
   LexInv v b.lex ∧ (v.rf = true → b.resolved = true → ∀ e ∈ b.lex.entries, NoInline e)
 
-theorem init_inv (v : Variant) (base : Base) : BuilderInv v (Builder.init base) :=
+theorem init_inv (v : Variant) (base : Base) : BuilderInv v (Builder.init v base) :=
   ⟨⟨by simp [Builder.init], by simp [Builder.init]⟩, fun _ h => by simp [Builder.init] at h⟩
 
 theorem readLex_inv {v : Variant} {x : Ext} {b b' : Builder} {recs : List (Nat × List Str)} {ce : Option Nat}
@@ -403,7 +403,14 @@ theorem resolve_inv {v : Variant} {b b' : Builder} {n : Nat} (hi : BuilderInv v 
 theorem runOp_inv {v : Variant} {x : Ext} {s s' : Builder × Nat} {op : Op}
     (hi : BuilderInv v s.1) (h : runOp v x s op = .ok s') : BuilderInv v s'.1 := by
   cases op with
-  | conn lines => obtain ⟨c, _, rfl⟩ := runOp_conn h; exact hi
+  | conn lines =>
+    obtain ⟨_, rfl⟩ := runOp_conn h
+    obtain ⟨_, f2, f3⟩ := readConnB_frame v s.1 lines
+    unfold BuilderInv; simp only [f2, f3]; exact hi
+  | connIgn lines =>
+    obtain ⟨_, rfl⟩ := runOp_connIgn h
+    obtain ⟨_, f2, f3⟩ := readConnB_frame v s.1 lines
+    unfold BuilderInv; simp only [f2, f3]; exact hi
   | lex recs ce => obtain ⟨b, hb, rfl⟩ := runOp_lex h; exact readLex_inv hi hb
   | resolve => obtain ⟨b, n, hb, rfl⟩ := runOp_resolve h; exact (resolve_inv hi hb).1
 
@@ -417,7 +424,7 @@ theorem runOps_inv {v : Variant} {x : Ext} {s s' : Builder × Nat} {ops : List O
 
 theorem prepare_inv {v : Variant} {x : Ext} {inp : Input} {b : Builder} {cnt : Nat}
     (h : prepare v x inp = .ok (b, cnt)) : BuilderInv v b :=
-  runOps_inv (s := (Builder.init inp.base, 0)) (init_inv v inp.base) h
+  runOps_inv (s := (Builder.init v inp.base, 0)) (init_inv v inp.base) h
 
 /-! ## validation does not panic on such entries -/
 
@@ -777,11 +784,11 @@ theorem parseLine_no_panic {v : Variant} (h2 : v.d2 = true) (c : Conn) (line : S
     (parseLine v c line).isPanic = false := by
   unfold parseLine
   repeat' split
-  all_goals first | rfl | exact writeElem_no_panic h2 _ _ _
+  all_goals first | rfl | (rename_i hw; have hn := not_panic_of_isPanic (writeElem_no_panic h2 c _ _) hw; exact hn.elim)
 
-theorem readBody_no_panic {v : Variant} (h2 : v.d2 = true) (c : Conn) (lines : List (Option Str)) (n : Nat) :
-    (readBody v c lines n).isPanic = false := by
-  induction lines generalizing n with
+theorem readBody_no_panic {v : Variant} (h2 : v.d2 = true) (c : Conn) (lines : List (Option Str)) (n : Nat)
+    (cells : List (Nat × Int)) : (readBody v c lines n cells).2.isPanic = false := by
+  induction lines generalizing n cells with
   | nil => rfl
   | cons l ls ih =>
     cases l with
@@ -789,16 +796,16 @@ theorem readBody_no_panic {v : Variant} (h2 : v.d2 = true) (c : Conn) (lines : L
     | some l =>
       unfold readBody
       split
-      · exact ih _
+      · exact ih _ _
       · have := parseLine_no_panic h2 c l
         rw [← atLine_isPanic _ (n + 1)] at this
         split
-        · exact ih _
+        · exact ih _ _
         · rfl
         · rename_i w hw; rw [hw] at this; simp [Res.isPanic] at this
 
 theorem readHead_no_panic {v : Variant} (h1 : v.d1 = true) (lines : List (Option Str)) (acc : Str) (n : Nat) :
-    (readHead v lines acc n).isPanic = false := by
+    (readHead v lines acc n).2.isPanic = false := by
   induction lines generalizing acc n with
   | nil => simp [readHead, h1, Res.isPanic]
   | cons l ls ih =>
@@ -810,29 +817,33 @@ theorem readHead_no_panic {v : Variant} (h1 : v.d1 = true) (lines : List (Option
       · exact ih _ _
       · rfl
 
-theorem readConn_no_panic {v : Variant} (h1 : v.d1 = true) (h2 : v.d2 = true) (lines : List (Option Str)) :
-    (readConn v lines).isPanic = false := by
+theorem readConn_no_panic {v : Variant} (h1 : v.d1 = true) (h2 : v.d2 = true) (buf : ConnBuf)
+    (lines : List (Option Str)) : (readConn v buf lines).2.isPanic = false := by
   unfold readConn
-  cases hhd : readHead v lines [] 0 with
-  | err k l => rfl
-  | panic w => have := readHead_no_panic h1 lines [] 0; rw [hhd] at this; simp [Res.isPanic] at this
-  | ok p =>
-    obtain ⟨hd, n, rest⟩ := p
-    simp only []
-    cases hph : parseHeader hd with
-    | error e => rfl
-    | ok q =>
-      obtain ⟨l, r⟩ := q
+  have hh := readHead_no_panic h1 lines (if v.s5 then [] else buf.line) 0
+  cases hhd : readHead v lines (if v.s5 then [] else buf.line) 0 with
+  | mk hd r =>
+    rw [hhd] at hh
+    cases r with
+    | err k l => rfl
+    | panic w => simp [Res.isPanic] at hh
+    | ok p =>
+      obtain ⟨n, rest⟩ := p
       simp only []
-      split
-      · rfl
-      · split
+      cases hph : parseHeader hd with
+      | error e => rfl
+      | ok q =>
+        obtain ⟨l, r⟩ := q
+        simp only []
+        split
         · rfl
-        · have hb := readBody_no_panic h2 ⟨l, r, l.toNat * r.toNat * 2⟩ rest n
-          cases hbd : readBody v ⟨l, r, l.toNat * r.toNat * 2⟩ rest n with
-          | ok u => rfl
-          | err k l => rfl
-          | panic w => rw [hbd] at hb; simp [Res.isPanic] at hb
+        · split
+          · rfl
+          · exact readBody_no_panic h2 _ rest n _
+
+theorem readConnB_no_panic {v : Variant} (h1 : v.d1 = true) (h2 : v.d2 = true) (b : Builder)
+    (lines : List (Option Str)) : (readConnB v b lines).2.isPanic = false := by
+  rw [(readConnB_eq v b lines).1]; exact readConn_no_panic h1 h2 _ lines
 
 theorem toExcept_not_panic {α : Type} {st : Stage} {r : Res α} (h : r.isPanic = false) :
     ∀ f, r.toExcept st = .error f → ∀ s w, f ≠ .panic s w := by
@@ -848,11 +859,24 @@ theorem runOp_no_panic {v : Variant} {x : Ext} {s : Builder × Nat} {op : Op} (h
   cases op with
   | conn lines =>
     simp only [runOp] at hf
-    cases hc : (readConn v lines).toExcept .conn with
-    | error f' =>
-      simp only [hc] at hf; injection hf with hf; subst hf
-      exact toExcept_not_panic (readConn_no_panic h1 h2 lines) _ hc
-    | ok c => simp [hc] at hf
+    have hp := readConnB_no_panic h1 h2 s.1 lines
+    cases hc : readConnB v s.1 lines with
+    | mk b r =>
+      rw [hc] at hp
+      cases r with
+      | ok u => simp [hc] at hf
+      | err k l => simp only [hc, Except.error.injEq] at hf; subst hf; intro st w; simp
+      | panic w => simp [Res.isPanic] at hp
+  | connIgn lines =>
+    simp only [runOp] at hf
+    have hp := readConnB_no_panic h1 h2 s.1 lines
+    cases hc : readConnB v s.1 lines with
+    | mk b r =>
+      rw [hc] at hp
+      cases r with
+      | ok u => simp [hc] at hf
+      | err k l => simp [hc] at hf
+      | panic w => simp [Res.isPanic] at hp
   | lex recs ce =>
     simp only [runOp] at hf
     cases hc : (readLex v x s.1 recs ce).toExcept .lex with
@@ -1031,10 +1055,20 @@ theorem runOp_panic_stage {v : Variant} {x : Ext} {s : Builder × Nat} {op : Op}
   cases op with
   | conn lines =>
     simp only [runOp] at hf
-    cases hr : readConn v lines with
-    | ok a => simp [hr, Res.toExcept] at hf
-    | err k l => simp [hr, Res.toExcept] at hf
-    | panic w' => simp [hr, Res.toExcept] at hf; exact hf.1.symm
+    cases hc : readConnB v s.1 lines with
+    | mk b r =>
+      cases r with
+      | ok u => simp [hc] at hf
+      | err k l => simp [hc] at hf
+      | panic w' => simp [hc] at hf; exact hf.1.symm
+  | connIgn lines =>
+    simp only [runOp] at hf
+    cases hc : readConnB v s.1 lines with
+    | mk b r =>
+      cases r with
+      | ok u => simp [hc] at hf
+      | err k l => simp [hc] at hf
+      | panic w' => simp [hc] at hf; exact hf.1.symm
   | lex recs ce =>
     simp only [runOp] at hf
     cases hc : (readLex v x s.1 recs ce).toExcept .lex with
